@@ -4,13 +4,15 @@ from evalutil import *
 
 ID = "C06"
 LEVEL = "proof"
-MODULES = ["H3Proofs.Props.C06", "H3Proofs.Props.C06Spec"]
+MODULES = ["H3Proofs.Props.C06", "H3Proofs.Props.C06Spec", "H3Proofs.Props.C06H3"]
 THEOREMS = "auto"
 ASSUMPTIONS = ["layout-faithful model of compactCells (hash table with parent % n probing, reserved-bit counters, "
                "exact output slots) and uncompactCells tied to the code by exact array correspondence"]
 NOT_PROVED = ["compactImpl_refines_spec (the hash-table implementation computes the set-level compaction `compactSpec`) "
               "is exercised by correspondence (op compactS) + evaluator, not a theorem; the set-level theorems of C06Spec "
-              "are proved for an abstract forest whose axioms are those C04Children proves of the digit tree"]
+              "are proved for an abstract forest and instantiated (C06H3) with the valid cells of the model, its axioms "
+              "being consequences of the C04 theorems; that the counting formulation `compactSpec` (executable) equals the "
+              "quantified `Compact` is not proved"]
 EXPLANATION = ("bounds/error theorems on the model; exact array correspondence of compactCells; the evaluator checks "
                "round trip, antichain, no complete sibling family, validity, size and order independence on the real "
                "library with a python digit-tree oracle")
